@@ -7,6 +7,7 @@ import JominiModel.Proofs.WriterTape
 import JominiModel.Proofs.TextTapeFaithful3
 import JominiModel.Proofs.WriterArraysTape
 import JominiModel.Proofs.WriterGenTape
+import JominiModel.Proofs.WriterJ
 /-
 C14 — Writing a parsed tape and re-parsing reproduces the same structure; writing is idempotent.
 Only property theorems live here; helper lemmas are in `Proofs/Writer.lean`.
@@ -288,11 +289,81 @@ theorem C14_known_mixed_nested_operator_breaks :
            .endTok 1] false := by
   refine ⟨by decide +kernel, by decide +kernel, by decide +kernel⟩
 
+/-- **C14, the positive theorem over the text-tape slice's one document type.**  For EVERY document
+`d : JFields` under every valid layout (`JValidF d gt`: arbitrary blanks / comments in every gap,
+optional `=` before `{`, ghost `{}` in key position and at the start of containers, quoted and
+unquoted scalars, `@variables` and `@[…]`, all eight operators, objects, arrays of scalars, arrays of
+objects / arrays / empty containers, empty containers, headers `rgb { … }`, nested to any depth)
+that is `JPlainF` — i.e. everything except the exclusions listed below —, and every indent factor
+and blank indent byte:
+
+  * `parse` the text, `write_tape` the tape, `parse` what was written: the second tape equals the
+    first modulo the positions of the scalars (keys, operators, scalar bytes, quotedness,
+    `Object` / `Array` / `End` links, `Header` tokens), and
+  * writing is idempotent: `write_tape` of the re-parsed tape produces exactly the same bytes.
+
+The parse-back step is the text-tape slice's `faithful_tree` applied to the writer's own layout,
+which is shown to be a valid layout (`JValidF`) of the same content (`Proofs/WriterGenParse.lean`);
+`write_tape` performs exactly the calls of the document (`Proofs/WriterGenTape.lean`).
+
+Exclusions (`JPlainF`, `hb'`), all witnessed on the real code:
+  1. parameter blocks — known finding `roundtrip-param-scalar` (`C14_known_param_scalar_breaks`); the
+     object-valued form is fine on the real code but not proved here;
+  2. mixed containers — an object that continues as a bare list is documented as not preserved;
+     arrays that turn into key-value pairs are not in `JFields`; known finding
+     `roundtrip-mixed-nested-operator` (`C14_known_mixed_nested_operator_breaks`);
+  3. an unquoted first key starting with the BOM bytes (`hb'`) — known finding `roundtrip-bom-key`;
+  4. the ghost shapes of the format itself: an array whose first element, or a header whose body, has
+     empty content (only writable as `{ {} }`: `a={ { {} } x }`, `a=rgb { {} }`) — written as `{ }` in
+     first position it is dropped on re-reading as a ghost object. -/
+theorem C14_nested_roundtrip (d : TextTape.JFields) (gt : Bytes) (c : UInt8) (f : Nat)
+    (hc : TextTape.isBlank c = true) (hgt : TextTape.Blank gt) (hv : TextTape.JValidF d gt)
+    (hplain : JPlainF d) (hb : TextTape.hasBom (TextTape.jrenderF d ++ gt) = false)
+    (hb' : ∀ T₀ s, TextTape.parse (TextTape.jrenderF d ++ gt) = .ok T₀ false →
+      writeTape (T₀.map ofTT) (State.init c f) = .ok s → TextTape.hasBom s.out = false) :
+    ∃ T₀ s T, TextTape.parse (TextTape.jrenderF d ++ gt) = .ok T₀ false ∧
+      writeTape (T₀.map ofTT) (State.init c f) = .ok s ∧
+      TextTape.parse s.out = .ok T false ∧
+      T.map TextTape.Tok.erase = T₀.map TextTape.Tok.erase ∧
+      writeTape (T.map ofTT) (State.init c f) = .ok s := by
+  have hcontent := (WriterParse.content_gOfJF d hplain).symm
+  have hcanon := WriterParse.canon_gOfJF d
+  have hgood := WriterParse.good_gOfJF d gt hv hplain
+  -- the written text, to discharge the BOM side condition
+  obtain ⟨T₀', hp0', he0'⟩ := TextTape.faithful_tree d gt hgt hv hb
+  have htape' : T₀'.map ofTT = wgF 0 (WriterParse.gOfJF d) := by
+    rw [← map_ofTT_erase, he0', hcontent, wgF_eq]
+  have hw' := writeTape_gen (WriterParse.gOfJF d) hcanon c f
+  have hout' := lexemes_gen (WriterParse.gOfJF d) (opened_of_canonF _ hcanon hgood) c f
+  have hbom : TextTape.hasBom (gtextRoot c f (WriterParse.gOfJF d)) = false := by
+    have := hb' T₀' _ hp0' (by rw [htape']; exact hw')
+    rwa [hout'] at this
+  obtain ⟨T₀, s, T, h0, hw, hp, he⟩ :=
+    C14_roundtrip_containers d gt (WriterParse.gOfJF d) c f hc hgt hv hb hcontent hcanon hgood hbom
+  refine ⟨T₀, s, T, h0, hw, hp, he, ?_⟩
+  rw [← map_ofTT_erase, he, map_ofTT_erase]; exact hw
+
+/-- the text-tape slice's example document `a={1 {b=c} {}} d={{x}}` (arrays of scalars / objects /
+empty containers / arrays): every hypothesis of `C14_nested_roundtrip` holds -/
+example : ∃ T₀ s T, TextTape.parse (TextTape.jrenderF TextTape.exampleTree ++ [10]) = .ok T₀ false ∧
+    writeTape (T₀.map ofTT) (State.init 32 2) = .ok s ∧ TextTape.parse s.out = .ok T false ∧
+    T.map TextTape.Tok.erase = T₀.map TextTape.Tok.erase ∧ writeTape (T.map ofTT) (State.init 32 2) = .ok s := by
+  obtain ⟨hv, hgt, hb⟩ := TextTape.exampleTree_valid
+  refine C14_nested_roundtrip TextTape.exampleTree [10] 32 2 (by decide +kernel) hgt hv ?_ hb ?_
+  · simp [TextTape.exampleTree, JPlainF, JPlainV, JPlainVs, TextTape.kcontentV]
+  · intro T₀ s h1 h2
+    rw [TextTape.parse_tree TextTape.exampleTree [10] hgt hv hb] at h1
+    cases h1
+    have : (writeTape ((TextTape.jtapeF TextTape.exampleTree 0 [10]).map ofTT) (State.init 32 2)).toOption.map
+        (fun s => TextTape.hasBom s.out) = some false := by decide +kernel
+    rw [h2] at this
+    simpa [Except.toOption] using this
+
 /-
 Growth theorem, NOT proved beyond flat documents and nested objects (full statement kept;
+`C14_nested_roundtrip` proves it for every `JFields` document outside the listed exclusions;
 `C14_roundtrip_flat`, `C14_roundtrip_nested`, `C14_roundtrip_arrays` and `C14_roundtrip_containers`
-(objects, arrays of scalars and of containers, empty containers, headers, any nesting) are its
-instances; parameter blocks and mixed containers — where the two known findings live — are decided
+are its earlier instances; parameter blocks and mixed containers — where the two known findings live — are decided
 by the L3 oracle on the real code):
 
   theorem C14_roundtrip (doc : Doc) (h : RoundTrippable doc) (layout : Layout) (c : UInt8) (f : Nat)
